@@ -711,9 +711,14 @@ func Build(rec *Recorder, n *Node, validate bool) z.ZogSchema {
 	case KPtr:
 		var s *z.PointerSchema
 		if n.PtrCo {
-			// the coercer reaches the pointed-to schema through the pointer schema
+			// the coercer reaches the pointed-to schema through the pointer schema and replaces whatever
+			// coercer that schema had (here sometimes: one that always fails)
 			inner := *n.Elem
-			inner.GlobalCo = true
+			if n.Elem.Tests != nil && len(n.Elem.Tests)%2 == 1 {
+				inner.Coercer, inner.CoerceTo = "err", nil
+			} else {
+				inner.GlobalCo = true
+			}
 			s = z.Ptr(Build(rec, &inner, validate))
 			z.WithCoercer(customCoercer(n.Elem))(s)
 		} else {
